@@ -3,7 +3,9 @@
    [prot] / [ign] are ARBITRARY predicates on offset-relative locations (the theorems hold for every
    CONFIG_PROTECT / CONFIG_PROTECT_MASK / COLLISION_IGNORE configuration, every offset, every live
    tree and every package); the model instantiates them with protect_filter / ignore_filter.
-   pkg_ok: the incoming package has one entry per location and ships no ._cfg… names. *)
+   pkg_ok: the incoming package has one entry per location and ships no ._cfg… names.
+   locs_wf: every location splits into dirname/basename and joins back (true of normalised paths).
+   A regular file is File (content, attrs): attrs = mode.uid.gid, so "= Some (File d)" also fixes mode and owner. *)
 From Coq Require Import List NArith ZArith Bool.
 Import ListNotations.
 From Verif Require Import Base.Val C22.Model_C22 C21.Model_C21 C21.Spec_C21 C21.Proofs_C21.
@@ -11,7 +13,7 @@ From Verif Require Import Base.Val C22.Model_C22 C21.Model_C21 C21.Spec_C21 C21.
 (* A live regular file under CONFIG_PROTECT (not masked, not ignored) whose content differs from the
    incoming entry is not a location of the contents set handed to the merge, and is unchanged by it. *)
 Theorem never_overwritten :
-  forall (prot ign : str -> bool) (off : str) (fs inst : pmap) (P d : str) (n : node),
+  forall (prot ign : str -> bool) (off : str) (fs inst : pmap) (P : str) (d : fdata) (n : node),
     pkg_ok inst ->
     protected_file prot ign off fs P d ->
     incoming_differs inst P d n ->
@@ -24,16 +26,16 @@ Print Assumptions never_overwritten.
    of an identical pending update if there is one, else non-negative and above every existing number
    of a pending update of that name; the renamed entry is in the set handed to the merge. *)
 Theorem written_beside_with_numbering_rule :
-  forall (prot ign : str -> bool) (off : str) (fs inst : pmap) (P d : str) (n : node),
-    pkg_ok inst ->
+  forall (prot ign : str -> bool) (off : str) (fs inst : pmap) (P : str) (d : fdata) (n : node),
+    pkg_ok inst -> locs_wf inst = true ->
     protected_file prot ign off fs P d ->
     incoming_differs inst P d n ->
     let c := cfg_count fs P n in
     let dest := pjoin (dirname P) (cfg_name c (basename P)) in
     numbering_rule fs (dirname P) (basename P) n c /\
     In ((dest, n), (P, n)) (renames prot ign off fs inst) /\
-    (newlocs_distinct prot ign off fs inst -> pm_get dest (pre_merge prot ign off fs inst) = Some n).
-Proof. exact written_beside_proof. Qed.
+    pm_get dest (pre_merge prot ign off fs inst) = Some n.
+Proof. exact written_beside2_proof. Qed.
 Print Assumptions written_beside_with_numbering_rule.
 
 (* "Reusing the number" of an identical pending update means the destination IS that pending file:
@@ -48,34 +50,32 @@ Print Assumptions reuse_targets_identical_file.
 
 (* ... and after the merge the tree holds the incoming content under that name. *)
 Theorem incoming_content_beside :
-  forall (prot ign : str -> bool) (off : str) (fs inst : pmap) (P d : str) (n : node),
-    pkg_ok inst ->
-    newlocs_distinct prot ign off fs inst ->
+  forall (prot ign : str -> bool) (off : str) (fs inst : pmap) (P : str) (d : fdata) (n : node),
+    pkg_ok inst -> locs_wf inst = true ->
     protected_file prot ign off fs P d ->
     incoming_differs inst P d n ->
     n <> Dir ->
     pm_get (pjoin (dirname P) (cfg_name (cfg_count fs P n) (basename P)))
            (merge_fs fs (pre_merge prot ign off fs inst)) = Some n.
-Proof. exact incoming_content_beside_proof. Qed.
+Proof. exact incoming_content_beside2_proof. Qed.
 Print Assumptions incoming_content_beside.
 
 (* The recorded contents (the install set after post_merge) keep the real name and not the ._cfg one. *)
 Theorem recorded_keeps_real_name :
-  forall (prot ign : str -> bool) (off : str) (fs inst : pmap) (P d : str) (n : node),
-    pkg_ok inst ->
-    newlocs_distinct prot ign off fs inst ->
+  forall (prot ign : str -> bool) (off : str) (fs inst : pmap) (P : str) (d : fdata) (n : node),
+    pkg_ok inst -> locs_wf inst = true ->
     protected_file prot ign off fs P d ->
     incoming_differs inst P d n ->
     let recorded := post_merge prot ign off fs inst (pre_merge prot ign off fs inst) in
     pm_get P recorded = Some n /\
     pm_get (pjoin (dirname P) (cfg_name (cfg_count fs P n) (basename P))) recorded = None.
-Proof. exact recorded_keeps_real_name_proof. Qed.
+Proof. exact recorded_keeps_real_name2_proof. Qed.
 Print Assumptions recorded_keeps_real_name.
 
 (* Unmerging (uninstall, or the unmerge half of a replace) never removes a protected file whose
    content differs from what the package recorded. *)
 Theorem uninstall_keeps_modified :
-  forall (prot ign : str -> bool) (off : str) (fs recorded inst : pmap) (P d : str),
+  forall (prot ign : str -> bool) (off : str) (fs recorded inst : pmap) (P : str) (d : fdata),
     protected_file prot ign off fs P d ->
     differs_from_recorded recorded P d ->
     pm_get P (unmerge_fs fs (uninstall_set prot ign off fs recorded inst)) = Some (File d).
@@ -85,7 +85,7 @@ Print Assumptions uninstall_keeps_modified.
 (* The same two facts stated about Model_C21.run — the function the correspondence compares with the
    real MergeEngine on every run — with the filters built from env.d, the extras and the live tree. *)
 Theorem run_install_never_overwrites :
-  forall (i : input) (P d : str) (n : node),
+  forall (i : input) (P : str) (d : fdata) (n : node),
     i_mode i = 0%N ->
     pkg_ok (inst_of i) ->
     protected_file (protI_of i) (ign_of i (i_fs i)) (i_off i) (i_fs i) P d ->
@@ -95,7 +95,7 @@ Proof. exact run_install_never_overwrites_proof. Qed.
 Print Assumptions run_install_never_overwrites.
 
 Theorem run_uninstall_keeps_modified :
-  forall (i : input) (P d : str),
+  forall (i : input) (P : str) (d : fdata),
     i_mode i = 2%N ->
     protected_file (protU_of i) (ign_of i (i_fs i)) (i_off i) (i_fs i) P d ->
     differs_from_recorded (with_off (i_off i) (i_old i)) P d ->
@@ -106,20 +106,19 @@ Print Assumptions run_uninstall_keeps_modified.
 (* replace mode: neither the merge half nor the unmerge half touches a protected file that differs
    from the incoming one ... *)
 Theorem run_replace_never_overwrites :
-  forall (i : input) (P d : str) (n : node),
+  forall (i : input) (P : str) (d : fdata) (n : node),
     i_mode i = 1%N ->
-    pkg_ok (inst_of i) ->
-    newlocs_distinct (protI_of i) (ign_of i (i_fs i)) (i_off i) (i_fs i) (inst_of i) ->
+    pkg_ok (inst_of i) -> locs_wf (inst_of i) = true ->
     protected_file (protI_of i) (ign_of i (i_fs i)) (i_off i) (i_fs i) P d ->
     incoming_differs (inst_of i) P d n ->
     pm_get P (o_fs (run i)) = Some (File d).
-Proof. exact run_replace_never_overwrites_proof. Qed.
+Proof. exact run_replace_never_overwrites2_proof. Qed.
 Print Assumptions run_replace_never_overwrites.
 
 (* ... and the unmerge half keeps a protected file (of the tree as the merge half left it) that
    differs from what the old package recorded. *)
 Theorem run_replace_keeps_modified :
-  forall (i : input) (P d : str),
+  forall (i : input) (P : str) (d : fdata),
     i_mode i = 1%N ->
     o_blocked (run i) = false ->
     let fs1 := merge_fs (i_fs i) (pre_merge (protI_of i) (ign_of i (i_fs i)) (i_off i) (i_fs i) (inst_of i)) in
@@ -128,3 +127,87 @@ Theorem run_replace_keeps_modified :
     pm_get P (o_fs (run i)) = Some (File d).
 Proof. exact run_replace_keeps_modified_proof. Qed.
 Print Assumptions run_replace_keeps_modified.
+
+(* The renamed locations of one merge are pairwise distinct (no ._cfg entry shadows another). *)
+Theorem newlocs_distinct_from_pkg_ok :
+  forall (prot ign : str -> bool) (off : str) (fs inst : pmap),
+    pkg_ok inst -> locs_wf inst = true -> newlocs_distinct prot ign off fs inst.
+Proof. exact newlocs_distinct_proof. Qed.
+Print Assumptions newlocs_distinct_from_pkg_ok.
+
+(* The ._cfgNNNN_ file is created in the SAME directory as the protected file, under the generated
+   name, and the merged tree holds it with the incoming entry's content AND mode/owner. *)
+Theorem cfg_file_same_directory_incoming_attrs :
+  forall (prot ign : str -> bool) (off : str) (fs inst : pmap) (P : str) (d : fdata) (content attrs : str),
+    pkg_ok inst -> locs_wf inst = true ->
+    protected_file prot ign off fs P d ->
+    incoming_differs inst P d (File (content, attrs)) ->
+    let dest := new_loc fs P (File (content, attrs)) in
+    dirname dest = dirname P /\
+    basename dest = cfg_name (cfg_count fs P (File (content, attrs))) (basename P) /\
+    pm_get dest (merge_fs fs (pre_merge prot ign off fs inst)) = Some (File (content, attrs)).
+Proof. exact cfg_file_same_directory_incoming_attrs_proof. Qed.
+Print Assumptions cfg_file_same_directory_incoming_attrs.
+
+(* ---- the filters themselves, for ALL paths ---- *)
+(* CONFIG_PROTECT minus CONFIG_PROTECT_MASK: p is protected iff it lies strictly below (normpath of)
+   some entry of CONFIG_PROTECT ∪ extras ∪ {/etc} and below no entry of CONFIG_PROTECT_MASK ∪ extras;
+   "below x" = rstrip "/" (normpath x) ++ "/" ++ anything, i.e. a prefix on a component boundary. *)
+Theorem protect_filter_spec :
+  forall (e : list envfile) (xp xm : list str) (p : str),
+    protect_filter e xp xm p = true <->
+    (exists x, In x (protect_entries e xp) /\ below_dir x p) /\
+    ~ (exists x, In x (mask_entries e xm) /\ below_dir x p).
+Proof. exact protect_filter_spec_proof. Qed.
+Print Assumptions protect_filter_spec.
+
+(* neither the directory itself nor a sibling sharing the characters (/etc, /etcx/foo) is below it *)
+Theorem below_dir_boundary :
+  forall (x rest : str) (c : N),
+    ~ below_dir x (rstrip_sl (normpath x)) /\
+    (c <> SL -> ~ below_dir x (rstrip_sl (normpath x) ++ c :: rest)) /\
+    below_dir x (rstrip_sl (normpath x) ++ SL :: rest).
+Proof. exact below_dir_boundary_proof. Qed.
+Print Assumptions below_dir_boundary.
+
+(* the entries env.d contributes for an incremental key: the words (split on whitespace, or on ":"
+   when the key is declared COLON_SEPARATED) of its value in every accepted env.d file *)
+Theorem env_words :
+  forall (e : list envfile) (k w : str), In w (collapsed true k e) <-> env_word e k w.
+Proof. exact env_words_proof. Qed.
+Print Assumptions env_words.
+
+(* COLLISION_IGNORE: the matcher is exactly shell-pattern matching of the WHOLE path ... *)
+Theorem fnmatch_spec : forall pat s : str, fnmatch pat s = true <-> glob_pat pat s.
+Proof. exact fnmatch_spec_proof. Qed.
+Print Assumptions fnmatch_spec.
+
+(* ... applied to every entry (env.d, extras, the two built-in .keep patterns), a live directory d
+   standing for the pattern d/STAR *)
+Theorem ignore_filter_spec :
+  forall (e : list envfile) (xi : list str) (off : str) (fs : pmap) (p : str),
+    ignore_filter e xi off fs p = true <->
+    exists x, In x (ignore_entries e xi) /\ glob_pat (ignore_entry_pat off fs x) p.
+Proof. exact ignore_filter_spec_proof. Qed.
+Print Assumptions ignore_filter_spec.
+
+(* an entry without * ? [ ignores exactly that path (a full match: /etc/q does not cover /usr/etc/q) *)
+Theorem literal_pattern :
+  forall l s : str, forallb plain l = true -> (fnmatch l s = true <-> s = l).
+Proof. exact literal_pattern_proof. Qed.
+Print Assumptions literal_pattern.
+
+(* a directory entry d, rewritten to d/*, ignores exactly the paths below d, at any depth *)
+Theorem directory_pattern :
+  forall l s : str, forallb plain l = true ->
+    (fnmatch (l ++ slash_star) s = true <-> exists rest, s = l ++ SL :: rest).
+Proof. exact directory_pattern_proof. Qed.
+Print Assumptions directory_pattern.
+
+(* the built-in */.keep and */.keep_* ignore exactly the paths ending in /.keep, or containing /.keep_ *)
+Theorem keep_patterns :
+  forall s : str,
+    (fnmatch keep1 s = true <-> exists pre, s = pre ++ [47; 46; 107; 101; 101; 112]%N) /\
+    (fnmatch keep2 s = true <-> exists pre suf, s = pre ++ [47; 46; 107; 101; 101; 112; 95]%N ++ suf).
+Proof. exact keep_patterns_proof. Qed.
+Print Assumptions keep_patterns.
